@@ -230,7 +230,7 @@ def gen_statements(chk):
     depth = 2 if chk.tier == "thorough" else 1
     for name, s in gensql.enumerate_shapes(depth):
         cases.append((name, s))
-    n_rand = 3000 if chk.tier == "thorough" else 220
+    n_rand = 1500 if chk.tier == "thorough" else 220
     R = gensql.Rand(chk.rng, max_depth=3 if chk.tier == "thorough" else 2)
     for i in range(n_rand):
         d = chk.rng.choice([1, 2, 2, 3, 4]) if chk.tier == "thorough" else chk.rng.choice([1, 2, 2])
@@ -238,11 +238,19 @@ def gen_statements(chk):
     return cases
 
 
+THOROUGH_RANDOM_DIALECTS = ["ansi", "sparksql", "tsql", "bigquery", "postgres", "snowflake", "mysql", "hive", "redshift", "non-validating"]
+
+
 def part_statements(chk, drv, st, dialects, enum):
     cases = gen_statements(chk)
     ans1 = sqlcheck.model_eval(drv, [[s] for _, s in cases])
     ans2 = sqlcheck.model_eval(drv, [[s] for _, s in cases], rev_star=1)
-    jobs = [(ci, d) for ci in range(len(cases)) for d in dialects]
+    if chk.tier == "thorough":
+        # budget (<= ~20 min): the 5 954 enumerated depth-2 shapes under ansi + sqlparse, the random statements under 10 dialects
+        jobs = [(ci, d) for ci in range(len(cases))
+                for d in (THOROUGH_RANDOM_DIALECTS if cases[ci][0].startswith("rand-") else ["ansi", "non-validating"])]
+    else:
+        jobs = [(ci, d) for ci in range(len(cases)) for d in dialects]
     res = monitor.run_cases([{"sql": ans1[ci]["sql"][0], "dialect": d, "export": True} for ci, d in jobs], chunksize=16)
     outcome_cache = {}
     for (ci, d), r in zip(jobs, res):
@@ -352,7 +360,7 @@ def run(chk):
     drv = Driver()
     st = sqlcheck.Stats()
     thorough = chk.tier == "thorough"
-    stmt_dialects = (sqlcheck.all_dialects() if thorough else ["ansi", "sparksql", "tsql"]) + ["non-validating"]
+    stmt_dialects = THOROUGH_RANDOM_DIALECTS if thorough else ["ansi", "sparksql", "tsql", "non-validating"]
     chain_dialects = ["ansi", "sparksql", "bigquery", "non-validating"] if thorough else ["ansi", "non-validating"]
     enum = Enumeration(chk, drv, st)
     replay_known(chk, st)
